@@ -413,6 +413,8 @@ func Run(cfg Config, bodies []func(t *Task)) *Result {
 	setMulti(false)
 	resetTimers()
 	setVNow(0)
+	tdone := make(chan struct{}, maxTimers)
+	setTimerDone(tdone)
 	for i := range bodies {
 		t := &Task{ID: i, wake: make(chan int), back: make(chan msg)}
 		tasks[i] = t
@@ -789,6 +791,11 @@ func Run(cfg Config, bodies []func(t *Task)) *Result {
 	if !res.Deadlock {
 		for range bodies {
 			<-done
+		}
+		for _, t := range tasks[n0:] {
+			if t.state == 2 {
+				<-tdone
+			}
 		}
 	}
 	return res
